@@ -16,6 +16,7 @@ mod c12;
 mod c16;
 mod rsp;
 mod sparql;
+mod seedreg;
 
 fn main() {
     let argv: Vec<String> = std::env::args().collect();
@@ -42,6 +43,7 @@ fn main() {
         "c05" => c05::main(&a),
         "c18" => c18::main(&a),
         "c19" => c19::main(&a),
+        "seedreg" => seedreg::main(&a),
         other => {
             eprintln!("unknown driver {other}");
             std::process::exit(2);
